@@ -892,8 +892,10 @@ class Merger:
             self.logger.debug(
                 "Merged document is now:", prefix="Merger::merge_with:  ",
                 data=self.data, footer="     ***** ***** *****")
-            if isinstance(rhs, (dict, list, CommentedSet, set)):
-                # Only Scalar values need further processing
+            if (insert_at.is_root
+                    and isinstance(rhs, (dict, list, CommentedSet, set))):
+                # RHS has become the whole document; only Scalar values and
+                # deeper insertion points need further processing
                 return
 
         # Resolve any anchor conflicts
